@@ -43,22 +43,30 @@ def showGSV : GSVRes × List Nat → String
 def handleC10 : Handler := fun args =>
   match args with
   | "c10-crash" :: _ => "no-panic"
-  | "c10" :: ver :: hs :: df :: callers :: steps :: regs :: stream :: _ =>
+  | "c10" :: ver :: hs :: df :: callers :: steps :: regs :: stream :: more =>
+    let shutdown : Option Nat := match more with
+      | sd :: _ => if sd.startsWith "sd=" then (tailStr (tailStr (tailStr sd))).toNat? else none
+      | [] => none
     match ver.toNat?, parseNatList hs, df.toNat?, parseNatList callers, parseSteps steps, parseRegs regs, parseStream stream with
     | some ver, some hs, some df, some callers, some steps, some regs, some s =>
-      let cfg : Cfg := ⟨hs, df != 0⟩
+      let cfg : Cfg := { handlers := hs, hasDefault := df != 0 }
       let beh0 := (steps.getD 0 {}).beh
       let loopSteps := steps.drop 1
       let ini := checkInitial Gen.schema cfg beh0 s
       let g := s.length - ini.rest.length
       let pass1 := rd cfg (envOf loopSteps) [] ini.rest
       let env := regs.foldl (fun e (id, pos) => addReg e (frameAt pass1.headers g pos) id) (envOf loopSteps)
-      let out := connect Gen.schema ver cfg beh0 env s
+      let out := connect Gen.schema ver cfg beh0 env s shutdown
       let allocs := out.initAllocs ++ (out.run.map (·.allocs)).getD []
       let cs := match out.run with
-        | some r => showCallers r [] callers
+        | some r => showCallers r [] callers ++
+            (match shutdown with
+             | some id => (if callers.isEmpty then "" else ",") ++ s!"sd{id}=" ++ (match callerDelivery r id with
+               | some d => (match shutdownReply Gen.schema d.toMsg with | .ok => "nil" | .err => "err" | .panic => "panic")
+               | none => "err")
+             | none => "")
         | none => ",".intercalate (callers.map fun id => s!"{id}=closed")
-      let res := match out.res with | .error => "error" | .blocked => "blocked" | .panic => "panic"
+      let res := match out.res with | .error => "error" | .blocked => "blocked" | .closed => "closed" | .panic => "panic"
       let al := match allocs.find? (· > MaxBuf) with | some n => s!"over:{n}" | none => "ok"
       s!"connect={res} callers={dash cs} alloc={al}"
     | _, _, _, _, _, _, _ => "bad-op"
